@@ -48,7 +48,7 @@ func TestC09_StorageLiabilitiesBacked(t *testing.T) {
 	st.Assume("storage contract: liabilities = delegate stakes + unpaid delegate and provider rewards + write pools + challenge pools + read pools over every stake pool, allocation and client of the history; newly accrued reward = block_reward.block_reward (plus one unit per blobber for rounding) for blobber_block_rewards, nothing otherwise")
 	grew := map[string]bool{}
 	caseReset["C09"] = func() { grew = map[string]bool{} }
-	ops := append([]string{"freeAlloc", "addAssigner", "readRedeem2", "readRedeem2", "replaceBlobber", "kill", "blockRewards2", "blockRewards2", "collect", "unstake"}, defaultOps...)
+	ops := append([]string{"newAlloc2", "extend2", "extend2", "freeAlloc", "addAssigner", "readRedeem2", "readRedeem2", "replaceBlobber", "kill", "blockRewards2", "blockRewards2", "collect", "unstake"}, defaultOps...)
 	runMachineOps(t, "C09", ops, storageDomain+" plus free-storage grants and read markers of several readers; oracle after every applied transaction: (liabilities after - liabilities before) <= (contract wallet after - before) + newly accrued block reward, where liabilities = all delegate stakes + unpaid rewards + write pools + challenge pools + read pools; non-trivial = history in which pools of >= 4 different kinds of transaction grew; distinct by history", 40, 90,
 		func(m *machine, txn *transaction.Transaction, o sim.Outcome, before *snapshot) error {
 			after := m.snap()
@@ -126,7 +126,7 @@ func TestC11_StakeLockUnlockExact(t *testing.T) {
 	type life struct{ locked, rewarded bool }
 	lives := map[string]*life{}
 	caseReset["C11"] = func() { chains, lives = 0, map[string]*life{} }
-	ops := []string{"stake", "stake", "stake", "unstake", "unstake", "unstake", "collect", "collect", "newAlloc", "newAlloc", "upload", "upload", "upload", "challenge", "challenge", "challenge", "respond",
+	ops := []string{"stake", "stake", "stake", "unstake", "unstake", "unstake", "collect", "collect", "newAlloc2", "newAlloc2", "upload", "upload", "upload", "challenge", "challenge", "challenge", "respond",
 		"readRedeem2", "readRedeem2", "readRedeem2", "readRedeem2", "blockRewards2", "blockRewards2", "kill", "shutdown", "cancel", "finalize", "advance", "blobberSettings", "unstake2", "unstake2", "collect2"}
 	runMachineOps(t, "C11", ops, "generated storage histories biased to staking on 6 blobbers and 4 validators: stake_pool_lock of 1 unit .. 150 tokens by four clients (repeated locks into the same pool, up to max_delegates), stake_pool_unlock by stakers, non-stakers and delegate wallets, collect_reward by delegate wallets and stakers, interleaved with allocations (offers), uploads, challenges, read markers and block rewards (which accrue rewards), kills / shutdowns, closes; oracle: a successful lock debits the staker and credits the contract wallet by exactly the value, raises exactly the staker's own delegate pool of that provider by the value, respects min_stake / max_stake / max_delegates of the state, and changes no other pool; a refused lock or unlock changes no pool; a successful unlock needs an own pool, pays its owner exactly the pool's balance + its reward (+ the provider's service-charge reward when the owner is the delegate wallet), removes the pool, leaves the others untouched and (alive blobbers) leaves stake >= offers; collect_reward pays exactly the accrued reward; non-trivial = pool that was locked, received a reward and was unlocked by its owner; distinct by history", 40, 90,
 		func(m *machine, txn *transaction.Transaction, o sim.Outcome, before *snapshot) error {
@@ -283,7 +283,7 @@ func TestC23_KillDisablesExactlyThatProvider(t *testing.T) {
 	dead := map[string]string{} // provider id -> how it died (model)
 	interesting := 0
 	caseReset["C23"] = func() { interesting, dead = 0, map[string]string{} }
-	ops := []string{"kill", "kill", "kill", "shutdown", "shutdown", "shutdown", "stake", "stake", "unstake", "collect", "newAlloc", "newAlloc", "upload", "upload", "challenge", "challenge", "respond",
+	ops := []string{"kill", "kill", "kill", "shutdown", "shutdown", "shutdown", "stake", "stake", "unstake", "collect", "newAlloc2", "newAlloc2", "upload", "upload", "challenge", "challenge", "respond",
 		"readRedeem2", "blockRewards2", "blockRewards2", "cancel", "finalize", "advance", "replaceBlobber"}
 	runMachineOps(t, "C23", ops, "generated storage histories biased to kill_blobber / kill_validator / shutdown_blobber / shutdown_validator sent by the contract owner, the provider's delegate wallet, the provider's own wallet and a stranger, repeated on dead providers, on providers with and without allocations, data and extra delegates, followed by reward-bearing operations (challenge responses, read markers, block rewards, closes); oracle: an authorised call on a live provider (kill: contract owner; shutdown: contract owner or delegate wallet) marks that provider's own stake pool dead and multiplies every delegate balance by (1 - slash) once (or removes an empty provider); any other call changes no stake pool and no provider node; no stake pool node ever exists under a wallet id that is not a registered provider; no other provider's stake pool or node changes; a dead provider's unpaid rewards never grow again; non-trivial = history with an authorised shutdown by a delegate wallet or a kill followed by a reward-bearing transaction; distinct by history", 40, 90,
 		func(m *machine, txn *transaction.Transaction, o sim.Outcome, before *snapshot) error {
